@@ -2,10 +2,31 @@ use mvlib::Ctx;
 use serde_json::Value;
 
 pub mod c01;
+pub mod c02;
+pub mod c03;
+pub mod c04;
+pub mod c05;
+pub mod c06;
+pub mod c07;
+pub mod c08;
+pub mod c09;
+pub mod c11;
+pub mod c12;
 
 pub fn dispatch(ctx: &Ctx, replay: Option<&Value>, _rest: &[String]) -> i32 {
     match ctx.id.as_str() {
         "C01" => c01::run(ctx, replay),
+        "C02" => c02::run(ctx, replay),
+        "C03" => c03::run(ctx, replay),
+        "C04" => c04::run(ctx, replay),
+        "C05" => c05::run(ctx, replay),
+        "C06" => c06::run(ctx, replay),
+        "C07" => c07::run(ctx, replay),
+        "C08" => c08::run(ctx, replay),
+        "C09" => c09::run(ctx, replay),
+        "C11" => c11::run(ctx, replay),
+        // C12 and C13 share one enumeration; the id decides which oracle is reported
+        "C12" | "C13" => c12::run(ctx, replay),
         other => {
             eprintln!("mvcore: unknown property {}", other);
             2
